@@ -101,12 +101,12 @@ def run(ctx):
 
     # ---- 3. correspondence pipelines ----
     bound = 3 if ctx.thorough() else 2
-    cap = 6000 if ctx.thorough() else 150
+    cap = 2500 if ctx.thorough() else 150
     nsh = 16
     jobs = []
     for i in range(nsh):
         jobs.append(("exh:%d" % i, [exe, "exh", str(bound), str(i), str(nsh), str(ctx.seed), str(cap)]))
-    nr = 20000 if ctx.thorough() else 1600
+    nr = 10000 if ctx.thorough() else 1600
     for i in range(nsh):
         jobs.append(("rnd:%d" % i, [exe, "rnd", str(nr), str(i), str(nsh), str(ctx.seed)]))
     for i in range(nsh):
